@@ -485,7 +485,6 @@ macro_rules! unary_name {
     }
 }
 
-unary_name!(abs, Float, Int);
 unary_name!(signum, Float, Int);
 unary_name!(sin, Float);
 unary_name!(round, Float);
@@ -543,8 +542,28 @@ unary_op!(
 );
 
 unary_op!(
+    abs,
+    (
+        |a: I| if a == I::min_value() {
+            Val::Error(exerr!("overflow in abs({:?})", a))
+        } else {
+            Val::Int(a.abs())
+        },
+        Int
+    ),
+    (|a: F| Val::Float(a.abs()), Float)
+);
+
+unary_op!(
     minus,
-    (|a: I| Val::Int(-a), Int),
+    (
+        |a: I| if a == I::min_value() {
+            Val::Error(exerr!("overflow in -({:?})", a))
+        } else {
+            Val::Int(-a)
+        },
+        Int
+    ),
     (|a: F| Val::Float(-a), Float),
     (
         |a: ArrayType<F>| Val::Array(a.iter().map(|ai| -(*ai)).collect()),
